@@ -57,23 +57,28 @@ Ix(r) == DOMAIN r.events
 Ev(r, i) == r.events[i]
 IsHook(e) == e.k = "hook"
 IsStepHook(e) == e.k = "hook" /\ e.name \in {"before_step", "after_step"}
-StepEvs(r, s) == {i \in Ix(r) : Ev(r, i).k = "step" /\ Ev(r, i).el = s}
+\* (with scenario_autoretry a scenario may run twice: step-level clauses look at its LATEST attempt only)
+LastAtt(r, s) == r.x.last[s]
+AllStepEvs(r, s) == {i \in Ix(r) : Ev(r, i).k = "step" /\ Ev(r, i).el = s}
+StepEvs(r, s) == {i \in AllStepEvs(r, s) : Ev(r, i).att = LastAtt(r, s)}
 Called(r, s, p) == <<s, p>> \in r.x.called
 StepHookRaised(r, s, p) == <<s, p>> \in r.x.shr
 BeforeStepSeen(r, s, p) == <<s, p>> \in r.x.bss
 BeforeStepRaised(r, s, p) == <<s, p>> \in r.x.bsr
 AnyHookRaised(r) == r.x.anyHookRaised
 AnyCleanupRaised(r) == r.x.anyCleanupRaised
-HookEvsOf(r, el) == {i \in Ix(r) : IsHook(Ev(r, i)) /\ Ev(r, i).el = el /\ ~IsStepHook(Ev(r, i))}
+HookEvsOf(r, el) == {i \in Ix(r) : IsHook(Ev(r, i)) /\ Ev(r, i).el = el /\ ~IsStepHook(Ev(r, i))
+                                   /\ (Kind(r, el) = "scenario" => Ev(r, i).att = LastAtt(r, el))}
 Executed(r, s) == s \in r.x.executed
 
 LayerExists(r, s, layer) == layer \in {"", "testrun", "feature", "scenario"} \/ (layer = "rule" /\ HasRuleAnc(r, s))
 LookupFails(r, s, p) == LET st == StepsOf(r, s)[p] IN st.cl_id # 0 /\ ~LayerExists(r, s, st.cl_layer)
 
 \* what the step function at (s, p) did, as an abstract "does it pass" (own hooks included)
-StepPasses(r, s, p) == LET st == StepsOf(r, s)[p] IN
+OutcomeLast(r, s, p) == IF LastAtt(r, s) >= 2 THEN StepsOf(r, s)[p].o2 ELSE StepsOf(r, s)[p].o
+StepPasses(r, s, p) == LET st == StepsOf(r, s)[p]  o == OutcomeLast(r, s, p) IN
    /\ st.def /\ ~StepHookRaised(r, s, p) /\ ~LookupFails(r, s, p)
-   /\ (st.o = "pass" \/ (st.o = "pending" /\ Wip(r, s)))
+   /\ (o = "pass" \/ (o = "pending" /\ Wip(r, s)))
 
 \* ---------------------------------------------------------------- "something went wrong", from source events only
 BadEvent(r, e) ==
@@ -84,7 +89,8 @@ BadEvent(r, e) ==
    \/ e.k = "cleanup" /\ e.raised
    \/ e.k = "hook" /\ e.name = "before_step" /\ ~e.raised /\ StepsOf(r, e.el)[e.pos].o = "badarg"   \* converter raises
    \/ e.k = "fmt" /\ e.name = "match" /\ e.undefined                                               \* undefined step reached
-UndefinedStatusSeen(r) == \E s \in Scens(r) : \E p \in DOMAIN r.end.step_status[s] :
+\* (only in SELECTED scenarios: an undefined step of a de-selected scenario is none of the run's business)
+UndefinedStatusSeen(r) == \E s \in Scens(r) : Sel(r, s) /\ \E p \in DOMAIN r.end.step_status[s] :
                               r.end.step_status[s][p] \in {"undefined", "untested_undefined"}
 Wrong(r) == (\E i \in Ix(r) : BadEvent(r, Ev(r, i))) \/ UndefinedStatusSeen(r)
 AbortSeen(r) == \E i \in Ix(r) : \/ Ev(r, i).k = "step" /\ Ev(r, i).outcome = "kbd"
@@ -99,29 +105,33 @@ Enrich(r0) ==
        eff == [el \in els |-> EffRaw(r0, el)]
        E == r0.events
        I == DOMAIN E
+       atts(el) == {E[i].att : i \in {j \in I : E[j].k = "attempt" /\ E[j].el = el}}      \* only recorded under autoretry
+       last == [el \in els |-> IF atts(el) = {} THEN 1 ELSE CHOOSE a \in atts(el) : \A b \in atts(el) : b <= a]
    IN [prog |-> r0.prog, cfg |-> r0.cfg, events |-> r0.events, end |-> r0.end, base |-> r0.base,
        x |-> [anc |-> anc, eff |-> eff,
               desc |-> [el \in els |-> {y \in els : el \in anc[y]}],
               match |-> [el \in els |-> EvalX(r0.cfg.nodes, r0.cfg.root, eff[el])],
-              called |-> {<<E[i].el, E[i].pos>> : i \in {j \in I : E[j].k = "step"}},
-              shr |-> {<<E[i].el, E[i].pos>> : i \in {j \in I : IsStepHook(E[j]) /\ E[j].raised}},
-              bss |-> {<<E[i].el, E[i].pos>> : i \in {j \in I : E[j].k = "hook" /\ E[j].name = "before_step"}},
-              bsr |-> {<<E[i].el, E[i].pos>> : i \in {j \in I : E[j].k = "hook" /\ E[j].name = "before_step" /\ E[j].raised}},
+              last |-> last,
+              called |-> {<<E[i].el, E[i].pos>> : i \in {j \in I : E[j].k = "step" /\ E[j].att = last[E[j].el]}},
+              shr |-> {<<E[i].el, E[i].pos>> : i \in {j \in I : IsStepHook(E[j]) /\ E[j].raised /\ E[j].att = last[E[j].el]}},
+              bss |-> {<<E[i].el, E[i].pos>> : i \in {j \in I : E[j].k = "hook" /\ E[j].name = "before_step" /\ E[j].att = last[E[j].el]}},
+              bsr |-> {<<E[i].el, E[i].pos>> : i \in {j \in I : E[j].k = "hook" /\ E[j].name = "before_step" /\ E[j].raised /\ E[j].att = last[E[j].el]}},
               executed |-> {E[i].el : i \in {j \in I : E[j].k = "hook" /\ E[j].name = "before_scenario"}},
               anyHookRaised |-> \E i \in I : IsHook(E[i]) /\ E[i].raised,
               anyCleanupRaised |-> \E i \in I : E[i].k = "cleanup" /\ E[i].raised]]
 
 \* ======================================================================= C01
+\* (with scenario_autoretry an earlier failing attempt is deliberately forgiven: the statement does not cover it)
 C01(r) ==
    (IF ~Ran(r) THEN {"C01.crash"} ELSE {})
-   \cup (IF Ran(r) /\ Wrong(r) /\ ~r.end.verdict THEN {"C01.false_green"} ELSE {})
-   \cup (IF Ran(r) /\ ~Wrong(r) /\ r.end.verdict THEN {"C01.false_red"} ELSE {})
+   \cup (IF Ran(r) /\ ~r.cfg.retry /\ Wrong(r) /\ ~r.end.verdict THEN {"C01.false_green"} ELSE {})
+   \cup (IF Ran(r) /\ ~r.cfg.retry /\ ~Wrong(r) /\ r.end.verdict THEN {"C01.false_red"} ELSE {})
 
 \* process exit code of `python -m behave` for the same case (r.events = events recorded by the child process)
 C01Exit(r) == IF (r.exit # 0) # Wrong(r) THEN {"C01.exit_code"} ELSE {}
 
 \* ======================================================================= C02
-MapStatus(r, s, p) == LET o == StepsOf(r, s)[p].o IN
+MapStatus(r, s, p) == LET o == OutcomeLast(r, s, p) IN
    IF LookupFails(r, s, p) THEN "error"
    ELSE CASE o = "pass" -> "passed" [] o = "fail" -> "failed" [] o \in {"error", "kbd"} -> "error"
           [] o = "pending" -> (IF Wip(r, s) THEN "pending_warn" ELSE "pending")
@@ -133,7 +143,7 @@ C02Scenario(r, s) ==
        n     == Len(StepsOf(r, s))
        okLen == Len(st) = n
        \* first position that does not pass among the positions that were started (before_step seen or reached undefined)
-       skipAt(p) == Called(r, s, p) /\ StepsOf(r, s)[p].o = "skip" /\ ~StepHookRaised(r, s, p) /\ ~LookupFails(r, s, p)
+       skipAt(p) == Called(r, s, p) /\ OutcomeLast(r, s, p) = "skip" /\ ~StepHookRaised(r, s, p) /\ ~LookupFails(r, s, p)
        started(p) == BeforeStepSeen(r, s, p) \/ (\E i \in Ix(r) : Ev(r, i).k = "fmt" /\ Ev(r, i).name = "result" /\ Ev(r, i).el = s /\ Ev(r, i).pos = p /\ Ev(r, i).status = "undefined")
    IN
    (IF ~okLen THEN {"C02.order"} ELSE {})
@@ -142,7 +152,7 @@ C02Scenario(r, s) ==
    \* map: status is determined solely by what the step function did (own hook errors are C12's business)
    \cup (IF okLen /\ \E i \in StepEvs(r, s) : LET p == Ev(r, i).pos IN
                  p \in DOMAIN st /\ ~StepHookRaised(r, s, p) /\ st[p] # MapStatus(r, s, p) THEN {"C02.map"} ELSE {})
-   \cup (IF okLen /\ \E p \in DOMAIN st : StepsOf(r, s)[p].o = "badarg" /\ BeforeStepSeen(r, s, p) /\ ~StepHookRaised(r, s, p)
+   \cup (IF okLen /\ \E p \in DOMAIN st : OutcomeLast(r, s, p) = "badarg" /\ BeforeStepSeen(r, s, p) /\ ~StepHookRaised(r, s, p)
                                            /\ (Called(r, s, p) \/ st[p] # "error") THEN {"C02.map"} ELSE {})
    \cup (IF okLen /\ \E p \in DOMAIN st : ~StepsOf(r, s)[p].def /\ (Called(r, s, p) \/ st[p] \notin {"undefined", "untested_undefined", "skipped", "untested"})
          THEN {"C02.map"} ELSE {})
@@ -185,9 +195,15 @@ C03Family(r, c) ==   \* names the known defect families so that narrow known-fin
    ELSE IF Kind(r, c) = "scenario" /\ r.end.status[c] = "skipped" /\ (\E p \in DOMAIN cs : cs[p] \in PassedLike)
            /\ (\E i \in StepEvs(r, c) : Ev(r, i).outcome = "skip") THEN "skip_by_step"
    ELSE "none"
+\* re-running an element yields statuses that depend only on the latest run: a step that the latest attempt did not
+\* start carries no "executed" status of an earlier attempt
+C03Latest(r) ==
+   IF \E s \in Scens(r) : LastAtt(r, s) >= 2 /\ \E p \in DOMAIN r.end.step_status[s] :
+         ~BeforeStepSeen(r, s, p) /\ r.end.step_status[s][p] \notin {"skipped", "untested", "undefined"}
+   THEN {"C03.latest_run_only"} ELSE {}
 C03(r) ==
    IF ~Ran(r) THEN {}
-   ELSE UNION {
+   ELSE C03Latest(r) \cup UNION {
       IF r.cfg.dry
       THEN (IF r.end.status[c] = "passed" /\ Rng(ChildStatuses(r, c)) \cap PassedLike = {} THEN {"C03.untested_never_passed"} ELSE {})
       ELSE (IF r.end.status[c] \notin DocAllows(r, c) THEN {Fam("C03.rollup", C03Family(r, c))} ELSE {})
@@ -258,7 +274,8 @@ RECURSIVE NestFold(_,_,_)
 NestFold(r, st, i) == IF i > Len(r.events) THEN st
                       ELSE NestFold(r, IF IsHook(Ev(r, i)) THEN NestStep(r, st, Ev(r, i)) ELSE st, i + 1)
 \* tag order: the before_tag / after_tag hooks of an element come one per own tag, in order
-TagHooksOf(r, el, nm) == SelectSeq(r.events, LAMBDA e : e.k = "hook" /\ e.name = nm /\ e.el = el)
+TagHooksOf(r, el, nm) == SelectSeq(r.events, LAMBDA e : e.k = "hook" /\ e.name = nm /\ e.el = el
+                                                           /\ (Kind(r, el) = "scenario" => e.att = LastAtt(r, el)))
 TagOrderOk(r, el) ==
    LET bt == TagHooksOf(r, el, "before_tag")  at == TagHooksOf(r, el, "after_tag")  tg == r.prog[el].tags IN
    /\ (bt = <<>> \/ [k \in DOMAIN bt |-> bt[k].tag] = tg)
@@ -279,12 +296,17 @@ C12(r) ==
               r.end.status[x] \notin ({"hook_error"} \cup (IF AnyCleanupRaised(r) THEN {"error"} ELSE {}))}} ELSE {})
    \cup (IF Ran(r) /\ \E s \in Scens(r) : \E p \in DOMAIN r.end.step_status[s] :
               StepHookRaised(r, s, p) /\ r.end.step_status[s][p] # "hook_error" THEN {"C12.marks_element"} ELSE {})
+   \* ... and exactly that element: nothing is marked hook-error without a raising hook of its own (latest attempt)
+   \cup (IF Ran(r) /\ \E el \in Els(r) : (r.end.hook_failed[el] \/ r.end.status[el] = "hook_error") /\ ~OwnHookRaised(r, el)
+         THEN {"C12.marks_exactly"} ELSE {})
+   \cup (IF Ran(r) /\ \E s \in Scens(r) : \E p \in DOMAIN r.end.step_status[s] :
+              r.end.step_status[s][p] = "hook_error" /\ ~StepHookRaised(r, s, p) THEN {"C12.marks_exactly"} ELSE {})
    \cup (IF Ran(r) /\ AnyHookRaised(r) /\ ~r.end.verdict THEN {"C12.run_fails"} ELSE {})
    \* a failing before-hook keeps the element's body from running
    \cup {Fam("C12.body_suppressed", HookFamily(r, el)) : el \in {x \in Els(r) : BeforeRaised(r, x) /\
               \E i \in Ix(r) : LET e == Ev(r, i) IN
-                  \/ e.k = "step" /\ e.el \in ScensUnder(r, x)
-                  \/ IsHook(e) /\ e.el # 0 /\ (e.el \in Desc(r, x) \/ (IsStepHook(e) /\ e.el = x))}}
+                  \/ e.k = "step" /\ e.el \in ScensUnder(r, x) /\ e.att = LastAtt(r, e.el)
+                  \/ IsHook(e) /\ e.el # 0 /\ (e.el \in Desc(r, x) \/ (IsStepHook(e) /\ e.el = x /\ e.att = LastAtt(r, x)))}}
    \cup (IF \E s \in Scens(r) : \E p \in DOMAIN StepsOf(r, s) : BeforeStepRaised(r, s, p) /\ Called(r, s, p)
          THEN {"C12.body_suppressed"} ELSE {})
    \* before_all failure aborts the run
@@ -301,7 +323,7 @@ C12(r) ==
 \* elements' own ancestry / descendants keeps the result it has without the fault.  Not asserted when either run was cut
 \* short (--stop, abort): there the statement only speaks about what lies before the cut.
 C12Pair(r) ==
-   IF ~Ran(r) \/ ~r.base.ran \/ r.cfg.stop \/ AbortSeen(r) \/ r.base.aborted THEN {}
+   IF ~Ran(r) \/ ~r.base.ran \/ r.cfg.stop \/ r.cfg.retry \/ AbortSeen(r) \/ r.base.aborted THEN {}
    ELSE LET H == {el \in Els(r) : OwnHookRaised(r, el)} \cup {sp[1] : sp \in r.x.shr}
             aff == H \cup UNION {Anc(r, el) : el \in H} \cup UNION {Desc(r, el) : el \in H}
         IN IF \E el \in Els(r) \ aff : \/ r.end.status[el] # r.base.status[el]
@@ -326,13 +348,11 @@ C13rVis(r) ==
              (e.vis[1] # 1 \/ e.vis[2] # FeatOf(r, e.el) \/ e.vis[3] # RuleOf(r, e.el) \/ e.vis[4] # e.el)
          THEN {"C13.visible"} ELSE {})
 C13rCl(r) ==
-   \* every registered cleanup runs exactly once; a raising cleanup makes the run fail
-   (IF \E i, j \in Ix(r) : i < j /\ Ev(r, i).k = "cleanup" /\ Ev(r, j).k = "cleanup" /\ Ev(r, i).cid = Ev(r, j).cid
-         THEN {"C13.cleanup_once"} ELSE {})
-   \cup (IF Ran(r) /\ \E s \in Scens(r) : \E i \in StepEvs(r, s) : LET st == StepsOf(r, s)[Ev(r, i).pos] IN
-              st.cl_id # 0 /\ ~LookupFails(r, s, Ev(r, i).pos) /\ ~StepHookRaised(r, s, Ev(r, i).pos) /\
-              ~\E j \in Ix(r) : j > i /\ Ev(r, j).k = "cleanup" /\ Ev(r, j).cid = st.cl_id
-         THEN {"C13.cleanup_once"} ELSE {})
+   \* every cleanup runs exactly once per registration (a step that runs again in a second attempt registers again)
+   (IF Ran(r) /\ \E s \in Scens(r) : \E p \in DOMAIN StepsOf(r, s) : LET c == StepsOf(r, s)[p].cl_id IN
+          c # 0 /\ Cardinality({i \in Ix(r) : Ev(r, i).k = "cleanup" /\ Ev(r, i).cid = c})
+                   # Cardinality({i \in AllStepEvs(r, s) : Ev(r, i).pos = p /\ ~LookupFails(r, s, p)})
+    THEN {"C13.cleanup_once"} ELSE {})
    \cup (IF Ran(r) /\ AnyCleanupRaised(r) /\ ~r.end.verdict THEN {"C13.cleanup_fails_run"} ELSE {})
 
 \* ======================================================================= C18 (capture), event part
